@@ -4,7 +4,6 @@ set -e
 cd "$(dirname "$0")"
 export CARGO_NET_OFFLINE=true
 mkdir -p .cache evidence replays
-if [ -d tools/rs2json ]; then
-  (cd tools/rs2json && cargo build --release --offline 2>&1 | tail -2)
-fi
+(cd tools/rs2json && cargo build --release --offline 2>&1 | tail -2)
+python3-vt -c "import z3; print('z3', z3.get_version_string())"
 echo "setup ok"
